@@ -324,7 +324,8 @@ impl Prop for C16 {
             for _ in 0 .. n {
                 counter += 1;
                 // unique addresses, never 0.0.0.0:0
-                p.push((Ipv4Addr::from(0x0a00_0000 + counter), 27000 + (counter % 1000) as u16));
+                // several servers per host: consecutive entries often share the IP and differ in the port
+                p.push((Ipv4Addr::from(0x0a00_0000 + counter / 3), 27000 + (counter % 3) as u16 + (counter % 7 == 0) as u16 * 100));
             }
             pages.push(p);
         }
